@@ -129,11 +129,15 @@ def make_checked(world: World, name: str):
                     r = z3.Int(fresh_name('upd_row'))
                     c = it.truth(it.call(item[3], [RowObj(world.db, item[1], r)], {}))
                     upd[k] = (r, z_bool(c))
+        exp_ret = None
+        if name == '_insert_lexicon':
+            exp_ret = it.call_function(spec_add.spec_insert_lexicon_returns, args[:1], {})
         del it.ctx.effects[n1:]        # specifications are pure
         it.ctx.effects.append(Event('contract', guard=it.ctx.current_guard(), binders=list(it.ctx.all_binders()),
                                     node=node, extra={'fn': name, 'real': real_events, 'spec': exp, 'ret': ret,
                                                       'assumptions': it.ctx.assumptions(), 'p0': p0,
-                                                      'args': args, 'upd': upd},
+                                                      'args': args, 'upd': upd, 'exp_ret': exp_ret,
+                                                      'assumptions_after': it.ctx.assumptions()},
                                     pc_len=len(it.ctx.pc)))
         return ret
     return handler
@@ -204,6 +208,28 @@ def insert_image(world: World, ev: Event, p0: int):
     return stmt.table, conflict, rows, side
 
 
+def return_obligations(world: World, qn: str, ev: Event, common: dict) -> list:
+    """The value handed back to the caller (here: the rowids later used to resolve every reference of the lexicon)."""
+    ret, exp = ev.extra['ret'], ev.extra['exp_ret']
+    asm = list(ev.extra['assumptions_after']) + lit_axioms()
+    obs = []
+    if not (isinstance(ret, tuple) and isinstance(exp, tuple) and len(ret) == len(exp)):
+        return [Obligation(f'{qn}:returns', kind='post', decided=False, detail='shape of the returned value', **common)]
+    for k, (a, b) in enumerate(zip(ret, exp)):
+        if not (isinstance(a, SV) and isinstance(b, SV)):
+            obs.append(Obligation(f'{qn}:returns[{k}]', kind='post', decided=a is b, detail='returned value', **common))
+            continue
+        # UNIQUE (id, version) of lexicons, instantiated for the two row terms
+        uniq = world.db.ground_unique([('lexicons', a.z), ('lexicons', b.z)])
+        goal = a.z == b.z
+        if b.none is not None:
+            goal = z3.Implies(z3.Not(b.none), goal)
+        obs.append(Obligation(f'{qn}:returns[{k}]', kind='post', assumptions=asm + uniq, goal=goal,
+                              detail='returns (rowid of the new lexicon, rowid of the base lexicon with exactly the id and '
+                                     'version of <Extends>, or the new rowid itself)', **common))
+    return obs
+
+
 def contract_obligations(world: World, prop: str, out, ev: Event) -> list:
     name = ev.extra['fn']
     fn = getattr(A, name)
@@ -241,6 +267,8 @@ def contract_obligations(world: World, prop: str, out, ev: Event) -> list:
         return obs
     obs.append(Obligation(f'{qn}:statements', kind='post', decided=True,
                           detail=f'{len(kinds_real)} statements in the prescribed order', **common))
+    if ev.extra.get('exp_ret') is not None:
+        obs.extend(return_obligations(world, qn, ev, common))
     for k_item, (e, (s, sguard)) in enumerate(zip(real_stmts, spec_items)):
         st = e.extra['stmt']
         e.extra.setdefault('preds', [])
